@@ -40,12 +40,12 @@ def build(tier):
         qs.append(q)
     # (b) accepted => usable: corners inside the limits through the full encode/decode cycle
     EN = ("C01", "C02")
-    corners_rs = [(RS2M, 4, 1, 1), (RS2M, 4, 1, 14), (RS2M, 4, 14, 1), (RS2M, 8, 1, 1), (RS28, 8, 1, 1), (RS28, 8, 1, 3)] if tier == "quick" else \
+    corners_rs = [(RS2M, 4, 1, 1), (RS2M, 4, 1, 14), (RS2M, 4, 5, 10), (RS2M, 8, 1, 1), (RS28, 8, 1, 1), (RS28, 8, 1, 3)] if tier == "quick" else \
                  [(RS2M, 4, 1, 1), (RS2M, 4, 1, 14), (RS2M, 4, 14, 1), (RS2M, 4, 7, 8), (RS2M, 8, 1, 1), (RS2M, 8, 1, 8), (RS2M, 8, 8, 1), (RS28, 8, 1, 1), (RS28, 8, 1, 3), (RS28, 8, 3, 1)]
     for codec, m, k, r in corners_rs:
         n = k + r
         for pat in ([list(range(r, n)), list(range(k))] if r >= k else [list(range(k - 1)) + [n - 1], list(range(k))]):
-            qs.append(rs_cycle("C09", codec, k, r, 1, m, pat, len(pat) % 2, 1, 0, EN, data="one", timeout=1500))
+            qs.append(rs_cycle("C09", codec, k, r, 1, m, pat, len(pat) % 2, 1, 0, EN, data="one", timeout=1500 if tier == "quick" else 4000))
     corners_ld = [(1, 3, 3, 1), (2, 3, 3, 2147483646), (3, 4, 4, 1), (1, 5, 5, 2147483646)] if tier == "quick" else \
                  [(1, 3, 3, 1), (2, 3, 3, 2147483646), (3, 4, 4, 1), (1, 5, 5, 2147483646), (5, 3, 3, 2147483646), (2, 6, 6, 1), (6, 4, 4, 16807)]
     for cfg in corners_ld:
